@@ -44,12 +44,16 @@ theorem range_step_deposits_all (bnd rest : Bool) (e dep low : ℝ) (he : 0 < e)
     intro c; unfold meanELoss; split_ifs <;> rfl
   unfold elossApplier
   rw [hm]
+  simp only [NumR.lit0]
   have h1 : ¬ ((!true || Num.eq e (0 : ℝ)) = true) := by
     led_simp; simp; exact ne_of_gt he
   have h2 : Num.gt e (0 : ℝ) = true := by led_simp; exact he
   have h3 : Num.eq (e - e) (0 : ℝ) = true := by led_simp; ring
-  simp only [h1, h2, h3, if_true, if_false]
-  refine ⟨by led_simp; ring, by led_simp, rfl⟩
+  simp only [h1, h2, h3, if_true]
+  refine ⟨?_, ?_, ?_⟩
+  · simp [NumR.hsub_real]
+  · simp [NumR.hadd_real]
+  · simp
 
 /-- also when the step ends at or below the tracking cut everything is deposited -/
 theorem tracking_cut_deposits_all (e low mean : ℝ) (h : e - mean ≤ low) :
@@ -152,8 +156,8 @@ noncomputable def exP : Particles ℝ :=
 /-- the cut loop with a sub-cut positron: 1/4 + 2·(1/2) goes to the deposition -/
 example : (cutLoop exP (0 : ℝ) [some ⟨2, 1 / 4⟩, some ⟨0, 3⟩]).1 = 5 / 4 := by
   simp [cutLoop, cutApplies, exP]
-  led_simp
-  norm_num
+  try led_simp
+  try norm_num
 
 /-- eloss hypotheses are satisfiable with a non-trivial outcome: E = 2, mean = 1/2, cut 1/1000 -/
 example : meanELoss (2 : ℝ) (1 / 1000) (1 / 2) true = 1 / 2 := by
@@ -192,7 +196,7 @@ example : ∃ inp : StepIn ℝ, StepOK exP 2 1 inp ∧ (stepLedger exP 2 1 inp).
   · unfold stepLedger postStep postAct alongStep elossApplier elossOn calcOf applyInteraction
     have hm : meanELoss (1 : ℝ) (1 / 1000) (1 / 4) true = 1 / 4 := by
       unfold meanELoss; led_simp; norm_num
-    simp only [Bool.not_false, hm]
+    simp only [Bool.not_false, hm, NumR.lit0]
     led_simp
     norm_num
 
